@@ -446,58 +446,86 @@ func likeCases() []likeCase {
 				}
 				for ql := -1; ql < depth; ql++ {
 					for _, tg := range targets {
-						var sb strings.Builder
-						sb.WriteString("<?php\n")
-						if tg.kind == "interface" {
-							fmt.Fprintf(&sb, "interface %s {", tg.name)
-							for _, m := range tg.meths {
-								sb.WriteString(" " + sig(m) + ";")
+						for _, nominal := range []bool{false, true} {
+							// nominal: the chain's root extends / implements the target itself, so the object is also an
+							// instance of it; an override below may still change the number of parameters
+							if nominal && tg.kind == "interface" {
+								skip := false
+								for _, m := range tg.meths {
+									if (m.name == "p" && pl < 0) || (m.name == "q" && ql < 0) {
+										skip = true // a class that does not implement the interface's method is not accepted
+									}
+								}
+								if skip {
+									continue
+								}
 							}
-							sb.WriteString(" }\n")
-						} else {
-							fmt.Fprintf(&sb, "class %s {", tg.name)
-							for _, m := range tg.meths {
-								sb.WriteString(" " + sig(m) + " { return 0; }")
-							}
-							sb.WriteString(" }\n")
-						}
-						// chain: L<depth-1> is the root, L0 the object's class
-						for lvl := depth - 1; lvl >= 0; lvl-- {
-							fmt.Fprintf(&sb, "class L%d", lvl)
-							if lvl < depth-1 {
-								fmt.Fprintf(&sb, " extends L%d", lvl+1)
-							}
-							sb.WriteString(" {")
-							if pl == lvl {
-								sb.WriteString(" " + sig(meth{"p", pp}) + " { return 1; }")
-							}
-							if ql == lvl {
-								sb.WriteString(" " + sig(meth{"q", 0}) + " { return 2; }")
-							}
-							sb.WriteString(" }\n")
-						}
-						fmt.Fprintf(&sb, "$o = new L0();\ntry { __obs(\"like\", $o like %s); } catch (Throwable $e) { __obs(\"!like\", $e->getMessage()); }\n", tg.name)
-						want := true
-						where := "own"
-						for _, m := range tg.meths {
-							lvl, params := -1, 0
-							if m.name == "p" {
-								lvl, params = pl, pp
+							var sb strings.Builder
+							sb.WriteString("<?php\n")
+							if tg.kind == "interface" {
+								fmt.Fprintf(&sb, "interface %s {", tg.name)
+								for _, m := range tg.meths {
+									sb.WriteString(" " + sig(m) + ";")
+								}
+								sb.WriteString(" }\n")
 							} else {
-								lvl, params = ql, 0
+								fmt.Fprintf(&sb, "class %s {", tg.name)
+								for _, m := range tg.meths {
+									sb.WriteString(" " + sig(m) + " { return 0; }")
+								}
+								sb.WriteString(" }\n")
 							}
-							if lvl < 0 || params != m.params {
-								want = false
+							// chain: L<depth-1> is the root, L0 the object's class
+							for lvl := depth - 1; lvl >= 0; lvl-- {
+								fmt.Fprintf(&sb, "class L%d", lvl)
+								if lvl < depth-1 {
+									fmt.Fprintf(&sb, " extends L%d", lvl+1)
+								} else if nominal && tg.kind == "class" {
+									fmt.Fprintf(&sb, " extends %s", tg.name)
+								}
+								if nominal && tg.kind == "interface" && lvl == 0 {
+									// on the object's own class: its methods may come from any ancestor
+									fmt.Fprintf(&sb, " implements %s", tg.name)
+								}
+								sb.WriteString(" {")
+								if pl == lvl {
+									sb.WriteString(" " + sig(meth{"p", pp}) + " { return 1; }")
+								}
+								if ql == lvl {
+									sb.WriteString(" " + sig(meth{"q", 0}) + " { return 2; }")
+								}
+								sb.WriteString(" }\n")
 							}
-							if lvl > 0 {
-								where = "inherited"
+							fmt.Fprintf(&sb, "$o = new L0();\ntry { __obs(\"like\", $o like %s); } catch (Throwable $e) { __obs(\"!like\", $e->getMessage()); }\n", tg.name)
+							want := true
+							where := "own"
+							for _, m := range tg.meths {
+								lvl, params := -1, 0
+								if m.name == "p" {
+									lvl, params = pl, pp
+								} else {
+									lvl, params = ql, 0
+								}
+								if lvl < 0 && nominal && tg.kind == "class" {
+									lvl, params = depth, m.params // inherited from the target class itself
+								}
+								if lvl < 0 || params != m.params {
+									want = false
+								}
+								if lvl > 0 {
+									where = "inherited"
+								}
 							}
+							reason := "complete"
+							if !want {
+								reason = "missing-or-arity"
+							}
+							key := fmt.Sprintf("cell:like:%s:%s:%s", tg.kind, where, reason)
+							if nominal {
+								key = fmt.Sprintf("cell:like:%s:nominal-%s:%s", tg.kind, where, reason)
+							}
+							out = append(out, likeCase{Src: sb.String(), Want: want, Key: key})
 						}
-						reason := "complete"
-						if !want {
-							reason = "missing-or-arity"
-						}
-						out = append(out, likeCase{Src: sb.String(), Want: want, Key: fmt.Sprintf("cell:like:%s:%s:%s", tg.kind, where, reason)})
 					}
 				}
 			}
